@@ -10,6 +10,7 @@ import (
 	"sort"
 	"strings"
 	"sync"
+	"sync/atomic"
 	"testing"
 	"time"
 
@@ -683,13 +684,14 @@ type c16Case struct {
 }
 
 type c16Run struct {
-	c   *verifmc.Check
-	mu  sync.Mutex
-	vp   int64 // panics inside signing-time validation
-	wok  int64 // snapshots written
-	rej  int64 // snapshots rejected at signing time (single / sequential)
-	prej int64 // second pending snapshot rejected at signing time (pipelined)
-	frej int64 // snapshots refused by the finalization-time validation
+	c    *verifmc.Check
+	mu   sync.Mutex
+	vp   int64       // panics inside signing-time validation
+	wok  int64       // snapshots written
+	rej  int64       // snapshots rejected at signing time (single / sequential)
+	prej int64       // second pending snapshot rejected at signing time (pipelined)
+	frej int64       // snapshots refused by the finalization-time validation
+	cut  atomic.Bool // the wall-clock cap skipped part of the second level
 }
 
 // report raises the violation of the statement for a failed write.
@@ -756,9 +758,9 @@ func TestMC_C16(t *testing.T) {
 		"Badger transactions are atomic; a failed write ends the history (the node would have crashed)",
 		"one chain never carries the same transaction in two snapshots (chain-level CoSi bookkeeping, asserted by WriteSnapshot): the two pending mints of one day on the elected chain are excluded")
 
-	k1 := verifmc.Pick(c, 3, 3)  // first snapshot
-	k2 := verifmc.Pick(c, 1, 2)  // second snapshot, sequential
-	kp := verifmc.Pick(c, 1, 2)  // both snapshots, pipelined
+	k1 := verifmc.Pick(c, 3, 3) // first snapshot
+	k2 := verifmc.Pick(c, 1, 2) // second snapshot, sequential
+	kp := verifmc.Pick(c, 1, 2) // both snapshots, pipelined
 	ev1, ev2, evp := c16Events(k1), c16Events(k2), c16Events(kp)
 	c.Set("events_first", len(ev1))
 	c.Set("events_second_sequential", len(ev2))
@@ -844,6 +846,14 @@ func TestMC_C16(t *testing.T) {
 		}
 	}
 	c.Set("single_transaction_snapshots", singles)
+	// first snapshots that were accepted at signing time, per base (the events of
+	// the pipelined level are a subset of the first-level events)
+	signed := map[string]bool{}
+	for i := range res1 {
+		if o := res1[i].outcome; res1[i].done && (o == "written" || strings.HasPrefix(o, "write-failed:") || strings.HasPrefix(o, "reject-at-finalization:")) {
+			signed[c16Bases[i/len(ev1)]+"|"+ev1[i%len(ev1)].String()] = true
+		}
+	}
 	type rep struct {
 		base string
 		e1   c16Event
@@ -855,18 +865,34 @@ func TestMC_C16(t *testing.T) {
 		}
 		if addState(res1[i].key) {
 			reps = append(reps, rep{c16Bases[i/len(ev1)], ev1[i%len(ev1)]})
-			if len(ev1[i%len(ev1)]) > 1 {
-				c.Sample(c16Case{Base: c16Bases[i/len(ev1)], Mode: "single", Steps: []string{ev1[i%len(ev1)].String()}})
-			}
 		}
 	}
 	c.Set("states_after_first_snapshot", len(reps))
+	// evidence samples: one per mode and verdict, chosen by index (deterministic)
+	samples := map[string]any{}
+	sample := func(slot string, cs c16Case, outcome string) {
+		if _, ok := samples[slot]; !ok {
+			samples[slot] = map[string]any{"case": cs, "outcome": outcome}
+		}
+	}
+	for i := range res1 {
+		e := ev1[i%len(ev1)]
+		cs := c16Case{Base: c16Bases[i/len(ev1)], Mode: "single", Steps: []string{e.String()}}
+		if len(e) == 3 && res1[i].written && cs.Base == "b1250" {
+			sample("1", cs, res1[i].outcome)
+		}
+		if len(e) >= 2 && strings.HasPrefix(res1[i].outcome, "reject:") {
+			sample("2", cs, res1[i].outcome)
+		}
+	}
 
 	// ---- level 2, sequential: from every distinct state, every second snapshot ----
 	n2 := len(reps) * len(ev2)
 	keys2 := make([]string, n2)
+	out2 := make([]string, n2)
 	c.ParallelN(n2, "second snapshots (sequential)", func(_, i int) {
 		if c.Expired("sequential second snapshots") {
+			r.cut.Store(true)
 			return
 		}
 		rp, e2 := reps[i/len(ev2)], ev2[i%len(ev2)]
@@ -902,13 +928,18 @@ func TestMC_C16(t *testing.T) {
 		c.Distinct(fmt.Sprintf("%s|seq|%s|%s", rp.base, rp.e1, e2))
 		out, written := r.exec(in, sn2, cs)
 		c.Outcome("2:" + out)
+		out2[i] = out
 		if written {
 			keys2[i] = in.key()
 		}
 	})
 	for i, k := range keys2 {
-		if k != "" && addState(k) {
-			c.Sample(c16Case{Base: reps[i/len(ev2)].base, Mode: "sequential", Steps: []string{reps[i/len(ev2)].e1.String(), ev2[i%len(ev2)].String()}})
+		cs := c16Case{Base: reps[i/len(ev2)].base, Mode: "sequential", Steps: []string{reps[i/len(ev2)].e1.String(), ev2[i%len(ev2)].String()}}
+		if k != "" && addState(k) && len(reps[i/len(ev2)].e1) > 1 {
+			sample("3", cs, out2[i])
+		}
+		if strings.HasPrefix(out2[i], "reject:") && len(reps[i/len(ev2)].e1) > 1 {
+			sample("4", cs, out2[i])
 		}
 	}
 
@@ -916,8 +947,10 @@ func TestMC_C16(t *testing.T) {
 	orders := []string{"first-then-second", "second-then-first"}
 	np := len(c16Bases) * len(evp) * len(evp) * len(orders)
 	keysp := make([]string, np)
+	outp := make([]string, np)
 	c.ParallelN(np, "pipelined snapshot pairs", func(_, i int) {
 		if c.Expired("pipelined pairs") {
+			r.cut.Store(true)
 			return
 		}
 		o := i % len(orders)
@@ -926,6 +959,9 @@ func TestMC_C16(t *testing.T) {
 		j /= len(evp)
 		e1 := evp[j%len(evp)]
 		base := c16Bases[j/len(evp)]
+		if !signed[base+"|"+e1.String()] {
+			return // first snapshot not enabled or refused at signing time: nothing pending
+		}
 		in := fresh(base)
 		if in == nil {
 			return
@@ -937,10 +973,12 @@ func TestMC_C16(t *testing.T) {
 			return
 		}
 		if sn1 == nil {
+			c.Require(false, "replay divergence (pipelined first snapshot disabled) %s %s", base, e1)
 			return
 		}
-		if rej, _ := in.validate(sn1); rej != "" {
-			return // nothing pending: covered by level 1
+		if rej, p := in.validate(sn1); rej != "" {
+			c.Require(false, "replay divergence (pipelined first snapshot) %s %s: %s %v", base, e1, rej, p)
+			return
 		}
 		sn2, err := in.stepSnap(2, e2)
 		if err != nil {
@@ -981,6 +1019,7 @@ func TestMC_C16(t *testing.T) {
 				c.Eval(1)
 				c.Distinct(fmt.Sprintf("%s|pipe-rejected|%s|%s", base, e1, e2))
 				c.Outcome("p:second-reject:" + rej)
+				outp[i] = "second snapshot refused at signing time: " + rej
 			}
 			return
 		}
@@ -997,16 +1036,24 @@ func TestMC_C16(t *testing.T) {
 		}
 		out, written = r.finish(in, b, nil, cs)
 		c.Outcome("p2:" + out)
+		outp[i] = "both signed; second finalization: " + out
 		if written {
 			keysp[i] = in.key()
 		}
 	})
 	for i, k := range keysp {
-		if k != "" && addState(k) && i%7 == 0 {
-			o := i % len(orders)
-			j := i / len(orders)
-			c.Sample(c16Case{Base: c16Bases[j/len(evp)/len(evp)], Mode: "pipelined", Steps: []string{evp[(j/len(evp))%len(evp)].String(), evp[j%len(evp)].String()}, Order: orders[o]})
+		o := i % len(orders)
+		j := i / len(orders)
+		cs := c16Case{Base: c16Bases[j/len(evp)/len(evp)], Mode: "pipelined", Steps: []string{evp[(j/len(evp))%len(evp)].String(), evp[j%len(evp)].String()}, Order: orders[o]}
+		if k != "" && addState(k) && cs.Base == "b1250" && o == 1 {
+			sample("5", cs, outp[i])
 		}
+		if strings.HasPrefix(outp[i], "second snapshot refused") && cs.Base == "b1250" {
+			sample("6", cs, outp[i])
+		}
+	}
+	for _, slot := range verifmc.SortedKeys(samples) {
+		c.Sample(samples[slot])
 	}
 
 	c.Set("snapshots_written", r.wok)
@@ -1014,6 +1061,9 @@ func TestMC_C16(t *testing.T) {
 	c.Set("rejected_at_finalization", r.frej)
 	// vacuity guards
 	c.Require(r.vp == 0, "%d snapshots made signing-time validation itself panic (outside the statement; see validation_panic_sample)", r.vp)
+	if r.cut.Load() {
+		return // capped run (exhaustive:false): the guards below need the complete second level
+	}
 	c.Require(r.wok > 500, "only %d snapshots were written", r.wok)
 	c.Require(len(reps) > 100, "only %d distinct states after the first snapshot", len(reps))
 	for _, want := range []string{"written", "2:written", "p2:written"} {
